@@ -271,3 +271,82 @@ _base_scn_mo = scenarios
 def scenarios():
     return _base_scn_mo() + [message_or(w) for w in ('literal', 'literal (second)', 'encrypted container', 'signature packet', 'signature', 'one-pass packet',
                                                        'session key packet', 'marker', 'user id packet')]
+
+
+def message_new(kind):
+    """PGPMessage.new (not from a file): literal metadata, format detection, compression; kind: 'bytes' | 'str' | 'sensitive' | 'cleartext'"""
+    label = 'C20/PGPMessage.new[%s]' % kind
+    MSGC, LIT = 'pgpy.pgp.PGPMessage', 'pgpy.packet.packets.LiteralData'
+
+    def gen(repo):
+        r = scn.Run(repo, MSGC, 'new', label)
+        ex, st = r.ex, r.st
+        r.hook(MSGC, '__call__', lambda ex, st, c, a: [(st, E.VObj(MSGC, 'msg'))])
+        r.hook(LIT, '__call__', lambda ex, st, c, a: [(st, E.VObj(LIT, 'lit'))])
+        NOW = E.VExt('datetime.now(utc)', ())
+        ex.hooks[('ext', 'datetime.now')] = lambda ex, st, o, a: [(st, NOW)]
+        ascii_ = z3.Bool('content_is_ascii')
+        r.hook('pgpy.types.Armorable', 'is_ascii', scn.method_hook(lambda ex, st, o, a: [(st, E.VBool(ascii_))]))
+        CONTENT = z3.Const('CONTENT', B)
+        T2B = z3.Function('TEXT_TO_BYTES', B, B)
+
+        def t2b(ex, st, o, a):
+            x = a[0]
+            st.ghost['t2b_arg'] = x
+            return [(st, E.VBytes(T2B(ex.strseq(x) if isinstance(x, E.VStr) else ex.seq(x, st))))]
+        r.hook(MSGC, 'text_to_bytes', scn.method_hook(t2b))
+
+        def m_or(ex, st, o, a):
+            st.ghost['added'] = st.ghost.get('added', ()) + (a[0],)
+            return [(st, o)]
+        r.hook(MSGC, '__or__', scn.method_hook(m_or))
+        r.hook(LIT, 'update_hlen', scn.mconst(E.VNone()))
+        ex.hooks[('ext', 'os.path.basename')] = lambda ex, st, o, a: [(st, a[0])]
+        msgval = E.VStr(z=CONTENT) if kind in ('str', 'cleartext') else E.VBytes(CONTENT)
+        kws = {}
+        if kind == 'sensitive':
+            kws['sensitive'] = E.VBool(True)
+        if kind == 'cleartext':
+            kws['cleartext'] = E.VBool(True)
+        ZLIB = E.VInt(2, enum='pgpy.constants.CompressionAlgorithm')
+        kws['compression'] = ZLIB
+        DEC = z3.Function('DECODE[utf-8]', B, B)
+        for pi, (s, v) in enumerate(r.call(E.VClass(MSGC), [msgval], kws)):
+            if isinstance(v, E.Raise):
+                # bytes that look like text are decoded as UTF-8 before they are stored as text: octets that are not UTF-8 are refused
+                r.oblige(s, 'refused-only-as-UnicodeDecodeError-for-text-like-bytes-that-are-not-utf-8/p%d' % pi,
+                         z3.And(z3.BoolVal(v.exc.split(':')[0] == 'UnicodeDecodeError' and kind in ('bytes', 'sensitive')), ascii_), v.where)
+                continue
+            added = s.ghost.get('added', ())
+            if kind == 'cleartext':
+                r.oblige(s, 'cleartext:the-text-itself-is-the-body,no-literal-packet/p%d' % pi, z3.BoolVal(len(added) == 1 and added[0] is msgval))
+                continue
+            r.oblige(s, 'one-literal-packet/p%d' % pi, z3.BoolVal(len(added) == 1 and isinstance(added[0], E.VObj) and added[0].ref == 'lit'))
+            g = lambda f: s.heap.get(('lit', f))
+            fmt = g('format')
+            want_fmt = 'u' if kind == 'str' else None
+            if kind == 'str':
+                r.oblige(s, 'a-str-is-stored-as-format-u/p%d' % pi, z3.BoolVal(isinstance(fmt, E.VStr) and fmt.s == 'u'))
+            else:
+                r.oblige(s, 'bytes:format-t-if-they-look-like-text,else-b/p%d' % pi,
+                         z3.If(ascii_, z3.BoolVal(isinstance(fmt, E.VStr) and fmt.s == 't'), z3.BoolVal(isinstance(fmt, E.VStr) and fmt.s == 'b')))
+            arg = s.ghost.get('t2b_arg')
+            if kind == 'str':
+                r.oblige(s, 'contents-are-the-octets-of-the-text/p%d' % pi, ex.seq(g('_contents'), s) == T2B(CONTENT) if g('_contents') is not None else z3.BoolVal(False))
+            else:
+                r.oblige(s, 'contents:binary-as-given;text-like-bytes-via-their-utf-8-reading/p%d' % pi,
+                         ex.seq(g('_contents'), s) == z3.If(ascii_, T2B(DEC(CONTENT)), T2B(CONTENT)) if g('_contents') is not None else z3.BoolVal(False))
+            fn = g('filename') if g('filename') is not None else g('_filename')
+            r.oblige(s, 'file-name:%s/p%d' % ('the-for-your-eyes-only-marker' if kind == 'sensitive' else 'empty', pi),
+                     z3.BoolVal(isinstance(fn, E.VStr) and fn.s == ('_CONSOLE' if kind == 'sensitive' else '')))
+            r.oblige(s, 'time-is-now/p%d' % pi, z3.BoolVal(g('_mtime') is NOW or g('mtime') is NOW))
+            r.oblige(s, 'compression-as-requested/p%d' % pi, z3.BoolVal(s.heap.get(('msg', '_compression')) is ZLIB))
+        return r.result()
+    return Scenario(label, MSGC + '.new', gen, props=('C20', 'C11'))
+
+
+_base_scn_mn = scenarios
+
+
+def scenarios():
+    return _base_scn_mn() + [message_new(k) for k in ('bytes', 'str', 'sensitive', 'cleartext')]
